@@ -612,7 +612,39 @@ func rulesC17(c *Ctx) {
 					return true
 				}
 				if id, isID := x.(*ast.Ident); isID {
-					return onlyFrom(f, id, depth, func(r ast.Expr) bool { return isPtrCall(f, r, "nextCursorPtr") })
+					if onlyFrom(f, id, depth, func(r ast.Expr) bool { return isPtrCall(f, r, "nextCursorPtr") }) {
+						return true
+					}
+					// a pointer parameter of a helper: every call of the helper behind paginate passes a nextCursorPtr()
+					if pv, isV := f.ObjOf(id).(*types.Var); isV && f.Root().Obj != nil {
+						idx := -1
+						for i, p := range f.Root().NonRecvParams() {
+							if p == pv {
+								idx = i
+							}
+						}
+						if idx >= 0 {
+							n, all := 0, true
+							for _, g0 := range c.pkgClosure(root) {
+								for _, g := range append([]*Func{g0}, g0.AllLits()...) {
+									for _, call := range g.AllCalls(g.Body, false) {
+										if fn := g.Callee(call); fn == nil || fn.Origin() != f.Root().Obj.Origin() || idx >= len(call.Args) {
+											continue
+										}
+										n++
+										a := ast.Unparen(call.Args[idx])
+										if !isPtrCall(g, a, "nextCursorPtr") {
+											if aid, isAID := a.(*ast.Ident); !isAID || !onlyFrom(g, aid, depth+1, func(r ast.Expr) bool { return isPtrCall(g, r, "nextCursorPtr") }) {
+												all = false
+											}
+										}
+									}
+								}
+							}
+							return n > 0 && all
+						}
+					}
+					return false
 				}
 				return false
 			}
